@@ -948,7 +948,7 @@ def op_df_astype(ctx):
     if not cur or len(set(cur)) != len(cur):
         return "astype(nothing)"
     name = rng.choice(cur)
-    typ = rng.choice(["float64", "float32", "int64", "bool", "str", "object", "category", "Int64"])
+    typ = rng.choice(["float64", "float32", "int64", "bool", "str", "object", "category", "Int64", "Float64", "boolean"])
 
     def f(df):
         df[name] = df[name].astype(typ)
@@ -1258,7 +1258,7 @@ def op_astype(ctx):
     if not cur:
         return "astype(nothing)"
     name = rng.choice(cur)
-    typ = rng.choice(["float64", "float32", "int64", "bool", "str", "object", "category"])
+    typ = rng.choice(["float64", "float32", "int64", "bool", "str", "object", "category", "Int64", "Float64", "boolean"])
     return derived(ctx, lambda df: df.astype({name: typ}), f"df.astype({{{name!r}:{typ}}})")
 
 
@@ -1669,6 +1669,52 @@ def _judge_writer(ctx, writer, result, reason, df, t):
     return False
 
 
+KNOWN_KINDS = "biufMOSU"
+
+
+def unit_fits(u, kind):
+    """the statement's rule (C15): 'text' exactly on string/object kinds, 'onoff' exactly on the boolean kind"""
+    return (u == "text") == (kind in "OSU") and (u == "onoff") == (kind == "b")
+
+
+def refusal_unjustified(ctx, exc, names, df):
+    """oracle-side: is there, in what the history did, any ground for refusing this table?  Judged from the labels,
+    the dtype kinds and the units the history gave / the table reported earlier (`ctx.assigned`); None when the
+    refusal is justified or cannot be judged"""
+    kinds = [dt.kind for dt in df.dtypes]
+    if len(df) < 1 or df.empty:
+        return None
+    if exc == "InvalidNamingError":
+        return None if len(set(names)) != len(names) else "no duplicated column label"
+    if len(set(names)) != len(names):
+        return None
+    if exc == "ValueError":
+        return None if any(k not in KNOWN_KINDS for k in kinds) else "every column has a dtype kind with a StarTable unit"
+    if exc == "ColumnUnitException":
+        if any(k not in KNOWN_KINDS for k in kinds):
+            return None
+        if not bool(ctx.info.metadata.strict_types):
+            return "the table is not strict-typed"
+        for n, k in zip(names, kinds):
+            if n not in ctx.assigned:
+                return None                      # a column whose unit the history does not know: not judged
+            if not unit_fits(ctx.assigned[n], k):
+                return None
+        return "every column's own unit fits the kind of its data"
+    return None
+
+
+def check_default_units(ctx, names, units, df):
+    """columns created without an explicit unit get 'onoff' / 'text' / '-' by the kind of their data"""
+    if df.empty or len(df) < 1 or len(units) != len(names) or ctx.tainted:
+        return
+    for n, u, dt in zip(names, units, df.dtypes):
+        if ctx.expect_default.get(n) and u != default_unit(dt.kind):
+            return _fail(ctx, "column created without an explicit unit did not get the unit of its data type",
+                         {"column": n, "unit": u, "kind": dt.kind, "dtype": str(dt)}, default_unit(dt.kind),
+                         ctx.prop + ":default-unit")
+
+
 def oracle_c04(ctx, t, units, ures, lookups, it, wr):
     out, df, case = ctx.out, ctx.df, ctx.case
     names = list(df.columns)
@@ -1676,6 +1722,16 @@ def oracle_c04(ctx, t, units, ures, lookups, it, wr):
         if ures["exc"] not in REFUSALS:
             _fail(ctx, "consultation crashed instead of reporting units or refusing the table", ures, "units or a refusal",
                   "C04:consult-crash:" + ures["exc"])
+        else:
+            why = refusal_unjustified(ctx, ures["exc"], names, df)
+            if why is not None:
+                _fail(ctx, "the consultation refused a table the history made legitimately: " + why,
+                      {"exc": ures["exc"], "columns": names, "kinds": [dt.kind for dt in df.dtypes],
+                       "own_units": [ctx.assigned.get(n) for n in names]}, "one unit per column",
+                      "C04:refused-legitimate-table:" + ures["exc"])
+        return
+    check_default_units(ctx, names, units, df)
+    if ctx.failed:
         return
     if len(df) < 1:
         return                                   # statement: tables with at least one row
